@@ -11,9 +11,13 @@ and the theorems below are re-checked against what the code says now: for every 
 every key, the list is exactly the `k`-th distance shell modulo `(u1,u2,dx) ~ (u2,u1,-dx)`, with no
 coupling listed twice (`PairsMatch`, candidates: all `dx` with `|dx_a| ≤ 4`).
 
-Partial: displacement vectors outside the box `|dx_a| ≤ 4` are not covered by a Lean theorem (a
-bounding lemma `|v|² ≥ Q(dx)/2 - |p|²` would close this; the harness oracle checks the same box
-against the real `Lattice.distance` / `find_coupling_pairs`).
+Full-strength statement (NOT proved, hence the `_partial` names): "for ALL `dx ∈ ℤ^dim` the list
+`pairs[key]` is the `k`-th distance shell".  What is proved is the same statement with the
+candidates restricted to the box `|dx_a| ≤ 4` (`decide +kernel` on the regenerated tables).  Missing:
+a bounding lemma "every `(u1,u2,dx)` outside the box is farther away than the largest listed shell"
+(true: the shortest basis vector has length ≥ 1 and the largest listed shell has distance ≤ 3, so
+outside the box `|v|² ≥ (3/4)·5² - |p|² > 9`); the harness oracle checks the box against the real
+`Lattice.distance` and `find_coupling_pairs`.
 -/
 open TenpyModel.C19.Pairs
 open TenpyModel.Gen.C19Pairs
@@ -41,35 +45,35 @@ theorem pairsMatchB_sound (t : Table) (B k : Nat) (key : String) (h : pairsMatch
 end TenpyModel.C19.Pairs
 
 /-- **Chain**: `nearest / next_nearest / next_next_nearest_neighbors` = 1st / 2nd / 3rd distance shell -/
-theorem C19_pairs_Chain :
+theorem C19_pairs_Chain_partial :
     PairsMatch chain 4 0 "nearest_neighbors" ∧ PairsMatch chain 4 1 "next_nearest_neighbors" ∧
     PairsMatch chain 4 2 "next_next_nearest_neighbors" :=
   ⟨pairsMatchB_sound _ _ _ _ (by decide +kernel), pairsMatchB_sound _ _ _ _ (by decide +kernel),
    pairsMatchB_sound _ _ _ _ (by decide +kernel)⟩
 
 /-- **Ladder** (`diagonal` is the 2nd shell as well) -/
-theorem C19_pairs_Ladder :
+theorem C19_pairs_Ladder_partial :
     PairsMatch ladder 4 0 "nearest_neighbors" ∧ PairsMatch ladder 4 1 "next_nearest_neighbors" ∧
     PairsMatch ladder 4 2 "next_next_nearest_neighbors" ∧ PairsMatch ladder 4 1 "diagonal" :=
   ⟨pairsMatchB_sound _ _ _ _ (by decide +kernel), pairsMatchB_sound _ _ _ _ (by decide +kernel),
    pairsMatchB_sound _ _ _ _ (by decide +kernel), pairsMatchB_sound _ _ _ _ (by decide +kernel)⟩
 
 /-- **Square** -/
-theorem C19_pairs_Square :
+theorem C19_pairs_Square_partial :
     PairsMatch square 4 0 "nearest_neighbors" ∧ PairsMatch square 4 1 "next_nearest_neighbors" ∧
     PairsMatch square 4 2 "next_next_nearest_neighbors" :=
   ⟨pairsMatchB_sound _ _ _ _ (by decide +kernel), pairsMatchB_sound _ _ _ _ (by decide +kernel),
    pairsMatchB_sound _ _ _ _ (by decide +kernel)⟩
 
 /-- **Triangular** (basis `(√3/2, 1/2), (0, 1)`) -/
-theorem C19_pairs_Triangular :
+theorem C19_pairs_Triangular_partial :
     PairsMatch triangular 4 0 "nearest_neighbors" ∧ PairsMatch triangular 4 1 "next_nearest_neighbors" ∧
     PairsMatch triangular 4 2 "next_next_nearest_neighbors" :=
   ⟨pairsMatchB_sound _ _ _ _ (by decide +kernel), pairsMatchB_sound _ _ _ _ (by decide +kernel),
    pairsMatchB_sound _ _ _ _ (by decide +kernel)⟩
 
 /-- **Honeycomb**: five shells -/
-theorem C19_pairs_Honeycomb :
+theorem C19_pairs_Honeycomb_partial :
     PairsMatch honeycomb 4 0 "nearest_neighbors" ∧ PairsMatch honeycomb 4 1 "next_nearest_neighbors" ∧
     PairsMatch honeycomb 4 2 "next_next_nearest_neighbors" ∧
     PairsMatch honeycomb 4 3 "fourth_nearest_neighbors" ∧ PairsMatch honeycomb 4 4 "fifth_nearest_neighbors" :=
@@ -78,7 +82,7 @@ theorem C19_pairs_Honeycomb :
    pairsMatchB_sound _ _ _ _ (by decide +kernel)⟩
 
 /-- **Kagome** -/
-theorem C19_pairs_Kagome :
+theorem C19_pairs_Kagome_partial :
     PairsMatch kagome 4 0 "nearest_neighbors" ∧ PairsMatch kagome 4 1 "next_nearest_neighbors" ∧
     PairsMatch kagome 4 2 "next_next_nearest_neighbors" :=
   ⟨pairsMatchB_sound _ _ _ _ (by decide +kernel), pairsMatchB_sound _ _ _ _ (by decide +kernel),
